@@ -7,7 +7,11 @@ case: ( trigger roller pre a0 ops )   -- see harness/src/rolling_c05.rs
            `time_script` from the trigger's documented schedule (the schedule itself is C16's subject)
   roller : [0] | [1, base, count, gz]
   pre    : [0] | [1, bytes]
+  roller : [1, base, count, gz, shape, bg]  shape 0/1/2 = index in file name / in directory and file name /
+           in directory only; bg = 1: case for the `background_rotation` build (quiescence waits, pending snapshot)
   ops    : [0, [chunk...]] | [1, a] | [2, [[rec...]...]]  (burst of threads) | [3, t] (set the hook clock)
+           | [4, a] hot restart (old instance stays alive) | [5, [chunk...]] append through the old instance
+           | [6] drop the old instance | [7, [chunk...]] append while the roller is set to fail
 impl/model result: one entry per op (entry 0 = initial build):
   [ [[shown, disk, rolled]...], [[kind, idx, bytes]...], errors, (burst: order) ]
 The model cannot predict a thread schedule: `model_lines` replaces each burst by
@@ -97,7 +101,13 @@ def flatten_for_model(case, impl):
         trig = [2, 1, time_script(case)]
     out = []
     for i, o in enumerate(ops):
-        if o[0] == 3:
+        if o[0] in (3, 6):
+            continue
+        if o[0] == 4:
+            out.append([1, o[1]])      # hot restart: for the files, a build on the same path
+            continue
+        if o[0] == 5:
+            out.append([0, o[1]])      # append through the old instance: same O_APPEND stream
             continue
         if o[0] != 2:
             out.append(o)
@@ -127,7 +137,7 @@ def model_lines(ctx, cases, lines, impl_lines):
     vc = ctx["vc"]
     out = []
     for c, line, il in zip(cases, lines, impl_lines):
-        if c[0][0] == 3 or any(o[0] in (2, 3) for o in c[4]):
+        if c[0][0] == 3 or any(o[0] in (2, 3, 4, 5, 6) for o in c[4]):
             try:
                 iv = vc.parse(il)
             except Exception:
@@ -162,6 +172,10 @@ def _snap(s):
     return sorted([int(k), int(i), bytes(b)] for k, i, b in s)
 
 
+def is_pre_trigger(trig):
+    return {0: False, 1: True, 2: bool(trig[1]) if len(trig) > 1 else False, 3: True}[trig[0]]
+
+
 def compare(case, impl, model):
     trig, roller, pre, a0, ops = case
     if not isinstance(impl, list) or len(impl) != len(ops) + 1:
@@ -169,11 +183,13 @@ def compare(case, impl, model):
     if not isinstance(model, list):
         return "model result has the wrong shape"
     keep, base = keep_of(roller), base_of(roller)
+    hot = any(o[0] == 4 for o in ops)      # overlapping instances: each LogWriter.len is legitimately stale
+    bg = bg_of(roller)
     # stream bookkeeping for the C05 oracle
     stream = [bytes(pre[1])] if (a0 and pre[0] == 1) else []
     stream_ok = True          # False once a truncating restart discarded data
     rolls_total = 0
-    life_rolls = 0            # C17: rolls since the last build
+    life_rolls = 0            # C17: rotation requests since the last build
     life_appends = 0
     mj = 0                    # index into model entries
     prev_snap = None
@@ -181,16 +197,19 @@ def compare(case, impl, model):
         ent = impl[i]
         if not isinstance(ent, list) or len(ent) < 3:
             return "op %d: malformed impl entry" % i
-        consults, snap, errors = ent[0], _snap(ent[1]), ent[2]
+        consults, snap, errors = [list(c) for c in ent[0]], _snap(ent[1]), ent[2]
+        if any(len(c) != 4 for c in consults):
+            return "op %d: malformed consultation entry" % i
         o = ops[i - 1] if i > 0 else [1, a0]
-        # --- what the model says for this op
-        if o[0] == 3:
+        # --- ops without an appender call
+        if o[0] in (3, 6):
             if consults or errors:
-                return "op %d: clock op produced consultations/errors" % i
+                return "op %d: op without appender call produced consultations/errors" % i
             if snap != prev_snap:
                 return "op %d: directory changed without an appender call" % i
             continue
         prev_snap = snap
+        # --- what the model says for this op
         if o[0] == 2:
             threads = o[1]
             k = sum(len(t) for t in threads)
@@ -202,69 +221,100 @@ def compare(case, impl, model):
             mj += k
             if len(ments) != k:
                 return "op %d: model produced too few entries" % i
-            m_consults = [c for e in ments for c in e[0]]
+            m_consults = [list(c) for e in ments for c in e[0]]
             m_snap = _snap(ments[-1][1]) if k else None
+            m_err = sum(e[2] for e in ments)
             new_recs = [rec_of(threads[t][r]) for t, r in order]
         else:
             if mj >= len(model):
                 return "op %d: model produced too few entries" % i
-            m_consults, m_snap = model[mj][0], _snap(model[mj][1])
+            m_consults, m_snap, m_err = [list(c) for c in model[mj][0]], _snap(model[mj][1]), model[mj][2]
             mj += 1
-            new_recs = [rec_of(o[1])] if o[0] == 0 else []
-        if errors != 0:
-            return "op %d: %d call(s) returned an error" % (i, errors)
-        if [list(c) for c in consults] != [list(c) for c in m_consults]:
-            return "op %d: consultations (shown, disk, rolled) impl %r != model %r" % (i, consults, m_consults)
+            new_recs = [rec_of(o[1])] if o[0] in (0, 5, 7) else []
+            if o[0] == 7 and m_err and is_pre_trigger(trig):
+                new_recs = []          # pre-processing: the early Err return skipped the write
+        if errors != m_err:
+            return "op %d: %d call(s) returned an error, model %d" % (i, errors, m_err)
+        sel = (lambda c: c[1:3]) if hot else (lambda c: c[0:3])
+        if [sel(c) for c in consults] != [sel(c) for c in m_consults]:
+            return "op %d: consultations (shown, disk, rotation requested) impl %r != model %r" % (
+                i, [c[:3] for c in consults], m_consults)
         if m_snap is not None and snap != m_snap:
             return "op %d: directory impl %r != model %r" % (i, snap, m_snap)
         # --- direct oracles
         for c in consults:
             STATS["consultations"] += 1
-            if c[0] != c[1]:
+            if not hot and c[0] != c[1]:
                 return "op %d: policy was shown len %r but the file on disk has %r bytes" % (i, c[0], c[1])
-        nrolled = sum(1 for c in consults if c[2])
+            if bool(c[3]) != (bool(c[2]) and o[0] != 7):
+                return "op %d: rotation requested=%r but active file gone=%r%s" % (
+                    i, c[2], c[3], " (roller set to fail)" if o[0] == 7 else "")
+        nreq = sum(1 for c in consults if c[2])
+        nrolled = sum(1 for c in consults if c[3])
         rolls_total += nrolled
         STATS["rotations"] += nrolled
+        if o[0] == 7 and nreq:
+            STATS["failed_rolls"] = STATS.get("failed_rolls", 0) + nreq
         kind = {0: "size", 1: "startup", 2: "user", 3: "time"}[trig[0]]
         STATS["rotations_" + kind] = STATS.get("rotations_" + kind, 0) + nrolled
-        if o[0] == 1:
+        if o[0] in (1, 4):
             life_rolls, life_appends = 0, 0
             if not o[1]:
                 stream_ok = False
-        # size trigger: rolled iff shown > limit; afterwards absent or <= limit
-        if trig[0] == 0 and o[0] != 1:
+        # size trigger: rotation requested iff shown > limit; afterwards absent or <= limit
+        if trig[0] == 0 and o[0] not in (1, 4):
             for c in consults:
                 if bool(c[2]) != (c[0] > trig[1]):
-                    return "op %d: size %d vs limit %d but rolled=%r" % (i, c[0], trig[1], c[2])
+                    return "op %d: size %d vs limit %d but rotation requested=%r" % (i, c[0], trig[1], c[2])
             act = [b for k_, _, b in snap if k_ == 0]
-            if act and len(act[0]) > trig[1]:
+            if act and len(act[0]) > trig[1] and o[0] != 7:
                 return "op %d: active file holds %d > limit %d bytes after the append" % (i, len(act[0]), trig[1])
-        # on-start-up trigger: at most one roll per lifetime, only at its first append
-        if trig[0] == 1 and o[0] != 1:
+        # on-start-up trigger: at most one request per lifetime, only at its first append
+        if trig[0] == 1 and o[0] not in (1, 4):
             for c in consults:
                 if c[2] and (life_appends > 0 or life_rolls > 0):
-                    return "op %d: on-start-up trigger rolled again / not on the first record" % i
+                    return "op %d: on-start-up trigger requested a rotation again / not on the first record" % i
                 if life_appends == 0 and bool(c[2]) != (c[1] >= trig[1]):
-                    return "op %d: first record, file of %d bytes, min_size %d, rolled=%r" % (i, c[1], trig[1], c[2])
+                    return "op %d: first record, file of %d bytes, min_size %d, rotation requested=%r" % (i, c[1], trig[1], c[2])
                 life_rolls += 1 if c[2] else 0
+                life_appends += 1
+            if o[0] == 7 and errors and not consults:
                 life_appends += 1
         # C05: archives oldest..newest then active = suffix of the stream at a record
         # boundary, every file made of whole records
         stream += new_recs
         if stream_ok:
             STATS["stream_checks"] += 1
-            d = check_stream(snap, stream, keep, base, rolls_total)
+            d, found = check_stream_found(snap, stream, keep, base, rolls_total)
             if d:
                 return "op %d: %s" % (i, d)
+            # background rotation: while rotations were pending every retained record was
+            # somewhere (archive, temp file, active file)
+            if bg and len(ent) > 4 and ent[4]:
+                pend = [bytes(b) for k_, _, b in ent[4] if k_ in (0, 1, 3)]
+                STATS["pending_snapshots"] = STATS.get("pending_snapshots", 0) + 1
+                if any(k_ == 3 for k_, _, _ in ent[4]):
+                    STATS["pending_with_temp_file"] = STATS.get("pending_with_temp_file", 0) + 1
+                for r in stream[found:]:
+                    if not any(r in f for f in pend):
+                        return "op %d: while a background rotation was pending the retained record %r was in no file" % (i, r)
     if mj != len(model):
         return "model produced %d entries, expected %d" % (len(model), mj)
     return None
 
 
+def bg_of(roller):
+    return 1 if (roller[0] == 1 and len(roller) > 5 and roller[5]) else 0
+
+
 def check_stream(snap, stream, keep, base, rolls_total):
+    return check_stream_found(snap, stream, keep, base, rolls_total)[0]
+
+
+def check_stream_found(snap, stream, keep, base, rolls_total):
     for k_, idx, _ in snap:
-        if k_ == 2 or (k_ == 1 and not (base <= idx < base + keep)):
-            return "unexpected file in the directory: %r" % ([k_, idx],)
+        if k_ in (2, 3) or (k_ == 1 and not (base <= idx < base + keep)):
+            return "unexpected file in the directory: %r" % ([k_, idx],), None
     files = [b for k_, idx, b in sorted((e for e in snap if e[0] == 1), key=lambda e: -e[1])]
     files += [b for k_, _, b in snap if k_ == 0]
     got = b"".join(files)
@@ -278,9 +328,9 @@ def check_stream(snap, stream, keep, base, rolls_total):
         if total == len(got) and b"".join(stream[k:]) == got:
             found = k
     if found is None:
-        return "retained files (oldest archive .. active) are not a suffix of the written records: %r vs stream %r" % (files, stream)
+        return "retained files (oldest archive .. active) are not a suffix of the written records: %r vs stream %r" % (files, stream), None
     if rolls_total <= keep and found != 0:
-        return "records missing although only %d rotation(s) <= count %d happened" % (rolls_total, keep)
+        return "records missing although only %d rotation(s) <= count %d happened" % (rolls_total, keep), found
     # file boundaries fall on record boundaries
     cuts = set()
     pos = 0
@@ -292,8 +342,8 @@ def check_stream(snap, stream, keep, base, rolls_total):
     for f in files:
         pos += len(f)
         if pos not in cuts:
-            return "a record is split across two files (file boundary at byte %d of the retained stream)" % pos
-    return None
+            return "a record is split across two files (file boundary at byte %d of the retained stream)" % pos, found
+    return None, found
 
 
 # --------------------------------------------------------------------------
@@ -302,8 +352,14 @@ def classify(case):
     trig, roller, pre, a0, ops = case
     t = {0: "size", 1: "startup", 2: "user-pre" if len(trig) > 1 and trig[1] else "user-post", 3: "time"}[trig[0]]
     r = "delete" if roller[0] == 0 else "window%s" % (".gz" if roller[3] else "")
+    if roller[0] == 1 and len(roller) > 4 and roller[4]:
+        r += ".dir-idx"
+    if bg_of(roller):
+        r = "BG-" + r
     extra = "+burst" if any(o[0] == 2 for o in ops) else ""
     extra += "+restart" if any(o[0] == 1 for o in ops) else ""
+    extra += "+hot-restart" if any(o[0] == 4 for o in ops) else ""
+    extra += "+failing-roll" if any(o[0] == 7 for o in ops) else ""
     return "%s/%s%s" % (t, r, extra)
 
 
@@ -313,7 +369,10 @@ def describe(case):
          2: lambda: "scripted(%s, thresholds=%r)" % ("pre" if trig[1] else "post",
                                                       ["never" if x >= NEVER else x for x in trig[2]]),
          3: lambda: "time(%d s%s, clock starts at %d)" % (trig[1], ", modulate" if trig[2] else "", trig[3])}[trig[0]]()
-    r = "delete" if roller[0] == 0 else "fixed_window(base=%d,count=%d%s)" % (roller[1], roller[2], ",gz" if roller[3] else "")
+    r = "delete" if roller[0] == 0 else "fixed_window(base=%d,count=%d%s%s%s)" % (
+        roller[1], roller[2], ",gz" if roller[3] else "",
+        ["", ",index in directory and file name", ",index in directory only"][roller[4]] if len(roller) > 4 else "",
+        ",background_rotation build" if bg_of(roller) else "")
 
     def opd(o):
         if o[0] == 0:
@@ -322,6 +381,14 @@ def describe(case):
             return "restart(append=%s)" % bool(o[1])
         if o[0] == 3:
             return "clock := %d" % o[1]
+        if o[0] == 4:
+            return "hot restart (second appender built, old one stays in service)"
+        if o[0] == 5:
+            return "append %d bytes through the old instance" % len(rec_of(o[1]))
+        if o[0] == 6:
+            return "old instance dropped"
+        if o[0] == 7:
+            return "append %d bytes in %d chunk(s), roller set to fail" % (len(rec_of(o[1])), len(o[1]))
         return "burst %r" % ([[len(rec_of(r_)) for r_ in t_] for t_ in o[1]],)
     return {"trigger": t, "roller": r,
             "pre_existing_bytes": (len(pre[1]) if pre[0] == 1 else None),
